@@ -213,6 +213,41 @@ def _worker(args):
     return acc.result()
 
 
+def cross_width_hellos():
+    """(one-octet carriers, two-octet carriers): for every number c in 0..255 a hello that carries c in its one-octet
+    code lists (point formats, PSK key exchange modes, compression methods) and a hello that carries the same number
+    as a two-octet code (cipher suite, named group, extension type).  The classification of a number in one code
+    space says nothing about the other (RFC 8701: 0x2A is a GREASE PSK mode, 42 is the early_data extension)."""
+    one, two = [], []
+    for c in range(256):
+        one.append(ref.client_hello(0x0303, 1577836800, bytes(range(28)), b'', [0x1301], [0, c] if c else [0],
+                                    [(11, ref.ext_ec_point_formats([0, c])), (45, bytes((2, c, 1)))]))
+        exts = [(10, ref.ext_supported_groups([29, c]))]
+        if c not in (10, 11):
+            exts.append((c, b''))
+        two.append(hello(0x0303, [0x1301, c], exts))
+        two.append(hello(0x0303, [0x1301, c], exts[:1]))
+    return one, two
+
+
+def _cross_width_worker(order):
+    """Fresh process: every one-octet carrier, then every two-octet carrier (or the reverse), each judged against the
+    reference JA3 - a classification remembered from the other code space shows as a mismatch."""
+    acc = core.Acc()
+    one, two = cross_width_hellos()
+    seq = one + two if order == 'one_then_two' else two + one
+    for i, wire in enumerate(seq):
+        check(acc, wire, {'kind': 'cross_width', 'order': order, 'index': i, 'wire': wire})
+    # signatures name the order: the finding is the dependence on what was parsed before
+    if order == 'one_then_two':
+        acc.sample({'kind': 'cross_width', 'hellos': len(seq), 'orders': ['one_then_two', 'two_then_one']}, 1)
+    out = acc.result()
+    for v in out[1]:
+        if not v['signature'].startswith('ja3:deviation:'):
+            v['signature'] = v['signature'] + ':after_other_code_space'
+    return out
+
+
 def history_panel():
     """Client hello wire forms for the pristine-process histories: every single extension kind, all kinds together,
     groups and point formats with GREASE and unassigned codes - with the JA3 the reference computes for them."""
@@ -234,6 +269,7 @@ def run(ctx):
     if not ctx.quick:
         items += [('triples', p, parts, True) for p in range(parts)]
     ctx.pmap(_worker, items)
+    ctx.pmap(_cross_width_worker, ['one_then_two', 'two_then_one'], fresh=True)
     from mc import classes, history
     prefixes = history.class_prefixes(keep=lambda q: classes.family(q) == 'tls')
     history.explore(ctx, history_panel(), prefixes, 'JA3 of a client hello',
@@ -246,7 +282,9 @@ def run(ctx):
                            'GREASE, 00ff, 5600}; every extension list of length 0-3 (and absent) over 7 extension kinds '
                            'with duplicates; group lists of length 1-2 over 4 codes; point-format lists of length 1-2 over '
                            '4 codes; every combination of two deviating sections%s; pristine-interpreter histories: a 40-hello panel '
-                           'alone vs. after the seeds of every single TLS class and after all of them (both orders)'
+                           'alone vs. after the seeds of every single TLS class and after all of them (both orders); every number 0..255 '
+                           'as a one-octet code (point format, PSK mode, compression) and as a two-octet code (suite, group, '
+                           'extension type) in one fresh process, both orders'
                            % ('' if ctx.quick else '; three deviating sections'))
 
 
@@ -258,6 +296,12 @@ def replay(ctx, w):
             return {'signature': 'ja3:depends_on_history:after:%s' % w['first_label'].rsplit('.', 1)[-1],
                     'what': 'JA3 depends on what was parsed before', 'witness': w}
         return None
+    if w.get('kind') == 'cross_width':
+        res = _cross_width_worker(w['order'])       # the replay process has parsed nothing before
+        for v in res[1]:
+            if v['witness'].get('index') == w['index']:
+                return v
+        return res[1][0] if res[1] else None
     exts = None if w['extensions'] is None else [ext_of(x, w['groups'], w['point_formats']) for x in w['extensions']]
     check(acc, hello(w['version'], w['suites'], exts), w)
     vs = list(acc.violations.values())
